@@ -110,6 +110,7 @@ void pmc_run(const char* config) {
     mv_init(); mvp::use_fast_stacks();
     mv_on_deadlock = on_deadlock;
     mv_time_deviations(strstr(extra, "tdev") != nullptr);
+    mv_tso(strstr(extra, "tso") != nullptr); mv_switch_points(0);     // built with -DPHOTON_VERIF for the TSC hook only
     st.prog.run(body);
     ledger("end");
     pmc_obs("%s count=%llu order=%s", st.prog.results().c_str(), (unsigned long long)st.sem->count(), st.log.c_str());
@@ -144,6 +145,9 @@ static const PmcConfig CFG[] = {
     {"1i:pw2,pt1,ps1,ppi1:tdev", 2, {0,0}, {1,2}, {0,0}, {0,0}, ""},
     {"0i:w1,t1|s1|s1:tdev",   2, {1,2}, {1,1}, {0,0}, {2,2}, "three vCPUs"},
     {"0o:w1,w2,w1|s2s2",      2, {1,2}, {0,0}, {0,0}, {0,0}, "ooo with three waiters"},
+    {"0i:w1|s1:tso",          3, {1,2}, {0,0}, {1,1}, {2,3}, "x86-TSO store buffers"},
+    {"0o:w2,w1|s1s2:tso",     3, {1,1}, {0,0}, {1,1}, {2,2}, ""},
+    {"0i:w1|@s1:tso",         2, {1,2}, {0,0}, {1,1}, {2,3}, ""},
 };
 const PmcConfig* pmc_configs(int* n) { *n = sizeof CFG / sizeof CFG[0]; return CFG; }
 const char* pmc_property(void) { return "C02"; }
